@@ -41,7 +41,7 @@ func TestMain(m *testing.M) {
 var worldCfg = vworld.Config{
 	MaxPermanodes: 2, MaxAttrClaims: 12, MaxDeletes: 7, MaxChain: 4,
 	TwoSigners: true, RefValues: false,
-	Attrs:  []string{"tag", "tag", "title", "x|y", "latitude", "longitude", "r&d+q a"},
+	Attrs:  []string{"tag", "tag", "title", "x|y", "latitude", "longitude", "r&d+q a", "étiquette", "标签2"},
 	Values: []string{"a", "a", "b", "", "a|b", "50% off", "sp ace", "ünï-✓"},
 }
 
